@@ -47,6 +47,8 @@ type Env struct {
 	// topFor: the allocation counter at the time a heap version was created (objects
 	// referenced from that version existed then); nil means "use the state's counter"
 	topFor func(heapVersion Term) (Term, bool)
+	// objInv: the declared type invariant of the finished object t (in state st), if any
+	objInv func(st *State, t Term, typ types.Type) Term
 	wfSeen map[string]bool
 	rangeIters func(n int) (it Term, heap string, ok bool)
 	// absolute-index form of a bounded quantifier: bound variable absVar is represented as
@@ -423,6 +425,15 @@ func (e *Env) fieldOf(st *State, base Term, typ types.Type, f string) TV {
 		h := e.w.FieldHeap(key, f, e.w.SortOf(fl.Type()))
 		v := Select(e.heap(st, h), base)
 		e.wf(st, v, fl.Type(), h)
+		if e.objInv != nil && e.emit != nil && len(e.bound) == 0 {
+			if _, isPtr := fl.Type().Underlying().(*types.Pointer); isPtr {
+				// an object reached through a field that existed when the function was entered is a
+				// finished object: its type invariant holds in every state a specification observes
+				if inv := e.objInv(st, v, fl.Type()); inv.S != "true" {
+					e.emit(Implies(Le(App("root", SInt, v), Sym("G$allocTop@0", SInt)), inv))
+				}
+			}
+		}
 		return TV{v, fl.Type()}
 	}
 	e.fail("struct %s has no field %s", key, f)
